@@ -200,7 +200,7 @@ def judge_raised(prop, r, oi, out, documented=()):
 # ---------------------------------------------------------------------------------------------
 
 def run_prop(prop, tier, seed, ops_fn, judge, families=("flat", "blocks"), rule="", quick_random=30,
-             thorough_random=500, level="model_checking", case_filter=None, op_timeout=120, post=None):
+             thorough_random=500, level="model_checking", case_filter=None, op_timeout=120, post=None, final=None):
     t0 = time.time()
     cov = Coverage()
     out = []
@@ -216,6 +216,8 @@ def run_prop(prop, tier, seed, ops_fn, judge, families=("flat", "blocks"), rule=
                 judge(r, out, cov)
             if post:
                 post(res, out, cov)
+        if final:
+            final(out, cov)
     except tlc.TLCError as e:
         err = str(e)[:2000]
     if not err and cov.evaluations > 0 and len(cov.nontrivial) < 2 and not common.replay_cases():
@@ -253,7 +255,11 @@ def c01(tier, seed):
                 cov.sample(sample_of(r, oi))
         cov.add_case(r, nt)
 
-    return run_prop("C01", tier, seed, ops, judge,
+    def final(out, cov):
+        import checks_large
+        checks_large.run_large("C01", tier, seed, out, cov)
+
+    return run_prop("C01", tier, seed, ops, judge, final=final,
                     rule="systematic skeleton + seeded random designs (flat and composed blocks); every sequence returned by "
                          "IterateSATGen/CMSGen/UniGen/IterateGen/UniformGen is replayed through MCTrace; non-trivial = at "
                          "least one sequence was returned and validated; distinct by canonical IR")
@@ -300,7 +306,11 @@ def c02(tier, seed):
         if pr.violation:
             raise tlc.TLCError("specification self-check failed: invariant %s violated with pruning off" % pr.violation)
 
-    return run_prop("C02", tier, seed, ops, judge, post=post,
+    def final(out, cov):
+        import checks_large
+        checks_large.run_large("C02", tier, seed, out, cov)
+
+    return run_prop("C02", tier, seed, ops, judge, post=post, final=final,
                     rule="IterateSATGen asked for CAP (600 quick, 1500 thorough) sequences; returned set is validated trace by trace (soundness) and "
                          "compared with the exhaustive enumeration of Design behaviours by MCEnum (completeness) when fewer "
                          "than CAP came back; non-trivial = non-empty exhausted set that went through MCEnum")
@@ -328,7 +338,11 @@ def c04(tier, seed):
                 cov.sample(sample_of(r, oi))
         cov.add_case(r, nt)
 
-    return run_prop("C04", tier, seed, ops, judge,
+    def final(out, cov):
+        import checks_large
+        checks_large.run_large("C04", tier, seed, out, cov)
+
+    return run_prop("C04", tier, seed, ops, judge, final=final,
                     rule="RandomGen (class and RandomGen(0) instance) asked for 1, 5, 3, 300 sequences; every returned sequence "
                          "replayed through MCTrace; non-trivial = at least one sequence returned")
 
